@@ -158,6 +158,7 @@ func init() {
 		"zzTypeName":       inTypeName,
 		"zzGoroutines":     inGoroutines,
 		"zzConcrete":       inConcrete,
+		"zzParam":          inParam,
 	}
 	for k, v := range zzIntrinsics {
 		if v == nil {
@@ -1262,6 +1263,18 @@ func (e *Exec) builtin(s *State, f *Frame, name string, args []Value, result ssa
 				s.heap[x.Obj] = &MapObj{KT: m.KT, VT: m.VT}
 			}
 			return TupleV{}, stepResult{}, false
+		case SliceV:
+			if x.Len > 0 {
+				arr := s.heap[x.Obj].(ArrayV)
+				na := make(ArrayV, len(arr))
+				copy(na, arr)
+				z := zeroValue(x.Elem)
+				for i := 0; i < x.Len; i++ {
+					na[x.Off+i] = z
+				}
+				s.heap[x.Obj] = na
+			}
+			return TupleV{}, stepResult{}, false
 		}
 	}
 	panic(unsupported("builtin " + name + fmt.Sprintf(" on %T", args[0])))
@@ -1317,4 +1330,13 @@ func (e *Exec) builtinAppend(s *State, args []Value) Value {
 	}
 	id := s.alloc(na)
 	return SliceV{Obj: id, Off: 0, Len: n, Cap: ncap, Elem: et}
+}
+
+func inParam(e *Exec, s *State, f *Frame, fn *ssa.Function, args []Value, result ssa.Value) (stepResult, bool) {
+	name := strArg(args[0])
+	v, ok := e.h.params[name]
+	if !ok {
+		panic(unsupported("harness parameter " + name + " not set in the registry"))
+	}
+	return e.ret(f, result, BV(64, uint64(int64(v))))
 }
